@@ -31,37 +31,16 @@ func rulesC19(cx *Ctx) []Obligation {
 				}
 				n++
 				{
-					tkey := "C19/O19.1/fresh-target/" + P.FnName(f)
 					tdesc := "json.Unmarshal decodes into a fresh zero-valued local (encoding/json decodes in place and leaves absent fields untouched: a recycled or shared target carries values of an earlier document into this one)"
-					tgt := c.Common().Args[1]
-					for {
-						if mi, ok := tgt.(*ssa.MakeInterface); ok {
-							tgt = mi.X
-							continue
+					leafs := freshTargets(P, f, c, c.Common().Args[1], 0)
+					n += len(leafs) - 1
+					for _, lf := range leafs {
+						tkey := "C19/O19.1/fresh-target/" + P.FnName(lf.fn)
+						if lf.ok {
+							obs = append(obs, good(tkey, tdesc, lf.site))
+						} else {
+							obs = append(obs, bad(tkey, tdesc, lf.why, lf.site))
 						}
-						if ct, ok := tgt.(*ssa.ChangeType); ok {
-							tgt = ct.X
-							continue
-						}
-						break
-					}
-					al, isAlloc := tgt.(*ssa.Alloc)
-					fresh := isAlloc
-					if isAlloc {
-						// no store into the local before the call (it is still the zero value)
-						for _, r := range *al.Referrers() {
-							if st, ok := r.(*ssa.Store); ok && st.Addr == ssa.Value(al) && (st.Block() != c.Block() || instrBefore(st, c)) {
-								fresh = false
-							}
-						}
-					}
-					if f.Name() == "UnmarshalJSON" && f.Signature.Recv() != nil {
-						// the json.Unmarshaler protocol: the target is the receiver the outer (fresh) decode handed in
-						obs = append(obs, good(tkey, tdesc, P.Pos(c.Pos())+" (custom UnmarshalJSON decoding into its receiver)"))
-					} else if fresh {
-						obs = append(obs, good(tkey, tdesc, P.Pos(c.Pos())))
-					} else {
-						obs = append(obs, bad(tkey, tdesc, "the decode target is "+tgt.String()+", not a fresh local", P.Pos(c.Pos())))
 					}
 				}
 				key := "C19/O19.1/unmarshal-error/" + P.FnName(f)
@@ -596,18 +575,24 @@ func ruleConfigCopy(cx *Ctx) []Obligation {
 	if r == nil {
 		return []Obligation{undecided("C19/O19.4/config/anchor", "types.ReadCommonCircuitData exists", "not found")}
 	}
-	// the raw decoder cell: the local of type CommonCircuitDataRaw
-	rawTag := ""
-	for _, b := range r.Entry.Blocks {
-		for _, ins := range b.Instrs {
-			if a, ok := ins.(*ssa.Alloc); ok {
-				if pt, ok := a.Type().(*types.Pointer); ok && typeIs(pt.Elem(), "types.CommonCircuitDataRaw") {
-					rawTag = "c:" + r.Entry.Name() + "." + a.Name()
+	// the raw decoder struct: a local of type CommonCircuitDataRaw somewhere in package types (its loads carry a
+	// type-based marker that survives calls, so the decode and the copy may live in different functions)
+	found := false
+	for _, f := range P.ModuleFuncsSorted() {
+		if fnPkgShort(f) != "types" {
+			continue
+		}
+		for _, b := range f.Blocks {
+			for _, ins := range b.Instrs {
+				if a, ok := ins.(*ssa.Alloc); ok {
+					if pt, ok := a.Type().(*types.Pointer); ok && typeIs(pt.Elem(), "types.CommonCircuitDataRaw") {
+						found = true
+					}
 				}
 			}
 		}
 	}
-	if rawTag == "" {
+	if !found {
 		return []Obligation{undecided("C19/O19.4/config/anchor", "the raw decoder struct of ReadCommonCircuitData is found", "no local of type CommonCircuitDataRaw")}
 	}
 	same := func(prefix string, names ...string) map[string]string {
@@ -653,18 +638,21 @@ func ruleConfigCopy(cx *Ctx) []Obligation {
 			continue
 		}
 		var srcs []string
+		const typeTag = "t:types.CommonCircuitDataRaw"
 		for _, f := range v.From {
-			if strings.HasPrefix(f, rawTag+".") || f == rawTag {
-				srcs = append(srcs, strings.TrimPrefix(f, rawTag))
+			if strings.HasPrefix(f, typeTag+".") {
+				srcs = append(srcs, strings.TrimPrefix(f, typeTag))
 			}
 		}
+		srcs = dedup(srcs)
 		// slices stored as local-cell pointers: look at what the pointer was loaded from
 		if len(srcs) == 0 && v.Cell != nil {
 			for _, f := range r.pointee(v).From {
-				if strings.HasPrefix(f, rawTag+".") {
-					srcs = append(srcs, strings.TrimPrefix(f, rawTag))
+				if strings.HasPrefix(f, typeTag+".") {
+					srcs = append(srcs, strings.TrimPrefix(f, typeTag))
 				}
 			}
+			srcs = dedup(srcs)
 		}
 		switch {
 		case len(srcs) == 1 && srcs[0] == want[tgt]:
@@ -676,4 +664,59 @@ func ruleConfigCopy(cx *Ctx) []Obligation {
 		}
 	}
 	return obs
+}
+
+type decodeLeaf struct {
+	fn   *ssa.Function
+	ok   bool
+	why  string
+	site string
+}
+
+// freshTargets follows the decode target of a json.Unmarshal call: a fresh zero-valued local is fine; a parameter of
+// the enclosing function (a decode helper) moves the question to every call site of that function.
+func freshTargets(P *Program, f *ssa.Function, at ssa.Instruction, tgt ssa.Value, depth int) []decodeLeaf {
+	for {
+		if mi, ok := tgt.(*ssa.MakeInterface); ok {
+			tgt = mi.X
+			continue
+		}
+		if ct, ok := tgt.(*ssa.ChangeType); ok {
+			tgt = ct.X
+			continue
+		}
+		break
+	}
+	site := P.Pos(at.Pos())
+	if f.Name() == "UnmarshalJSON" && f.Signature.Recv() != nil {
+		return []decodeLeaf{{fn: f, ok: true, site: site + " (custom UnmarshalJSON decoding into its receiver)"}}
+	}
+	if al, ok := tgt.(*ssa.Alloc); ok {
+		for _, r := range *al.Referrers() {
+			if st, ok := r.(*ssa.Store); ok && st.Addr == ssa.Value(al) && (st.Block() != at.Block() || instrBefore(st, at)) {
+				return []decodeLeaf{{fn: f, why: "the decode target " + al.Comment + " has been written before the call", site: site}}
+			}
+		}
+		return []decodeLeaf{{fn: f, ok: true, site: site}}
+	}
+	if p, ok := tgt.(*ssa.Parameter); ok && depth < 3 {
+		idx := paramIndex(f, p)
+		var out []decodeLeaf
+		for _, caller := range P.ModuleFuncsSorted() {
+			for _, b := range caller.Blocks {
+				for _, ins := range b.Instrs {
+					c, ok := ins.(ssa.CallInstruction)
+					if !ok || c.Common().StaticCallee() != f || idx >= len(c.Common().Args) {
+						continue
+					}
+					out = append(out, freshTargets(P, caller, ins, c.Common().Args[idx], depth+1)...)
+				}
+			}
+		}
+		if len(out) == 0 {
+			return []decodeLeaf{{fn: f, why: "the decode helper " + P.FnName(f) + " has no static call site", site: site}}
+		}
+		return out
+	}
+	return []decodeLeaf{{fn: f, why: "the decode target is " + tgt.String() + ", not a fresh local", site: site}}
 }
